@@ -320,7 +320,8 @@ def run(ctx):
                        "KsyGen.%s stores a new entry on every returning path (no reuse of an existing entry)" % f.name, key="KsyGen.%s always registers" % f.name)
             nst += 1
             k = st["key"]
-            ok = k[0] == "fmt" and N.is_const(k[1]) and (N.contains(k, alloc) or N.contains(k, alloc_here) or (in_gen and N.contains(k, nid)))
+            formatted = (k[0] == "fmt" and N.is_const(k[1])) or (k[0] == "fstr" and any(N.is_const(x) for x in k[1]))       # "enum_%s" % id  /  f"enum_{id}"
+            ok = formatted and (N.contains(k, alloc) or N.contains(k, alloc_here) or (in_gen and N.contains(k, nid)))
             ctx.ob("C19.R5", f, ok, "entries of the shared table ksy.%s are stored under a name built from a fresh ksy.allocateId() (an entry keyed any other way can overwrite an earlier one; got %s)" % (b[2], N.show(k)), key="ksy.%s key" % b[2])
             rets = [p for p in ps if p.returns and any(e.kind in ("STORE", "SELFWRITE") and e.node is st.node for e in p.events)]
             ctx.ob("C19.R5", f, bool(rets) and all(p.retval == k for p in rets), "the name returned is the name the entry was stored under", key="ksy.%s returned name" % b[2])
